@@ -9,7 +9,11 @@ delivers `chunks`.
 
 * `sen_is_reference`: the machine over the regenerated `sen/maps.go` is the machine over the readable
   reference tables (every cell: `Sen.senTables_ok`).
-* `chunks_irrelevant`: for the REPAIRED machine — the three fast-path deviations `fastInt`, `tokSlow`,
+* `bom_bounds_in_source`: the length tests of the BOM handling (`cnt < 4` of the loop that tops the first
+  read up, `3 < len(buf)` of the BOM tests, both front-ends, `[]byte` and reader entry points) are
+  REGENERATED from the source and the model's BOM rule (`topUpN`, `bomRuleReaderN`, `bomRuleN`) is
+  instantiated with them; `TablesOK` requires 4 and 3.
+* `chunks_irrelevant` (`_sen` over the regenerated tables and bounds): for the REPAIRED machine — the three fast-path deviations `fastInt`, `tokSlow`,
   `nlSkip` switched off — the outcome of a reader entry point (documents / callbacks, error kind and
   line, the BOM top-up rule included) depends only on the concatenation of the chunks. The error COLUMN
   is excluded: sen.ParseReader does not rebase the newline offset between read buffers (the sen suite
@@ -251,7 +255,8 @@ theorem afterBom_eq (h : Repaired cfg) (s : St) (cs : List Bytes) :
 sen.Tokenizer): documents / callbacks, error kind and line depend only on the bytes delivered, not on
 how the reader splits them — 1-byte reads, splits inside tokens, strings, numbers and comments, a BOM
 spread over several reads. -/
-theorem chunks_irrelevant (h : Repaired cfg) (hr : cfg.reader = true) (prev : St) (chunks : List Bytes) :
+theorem chunks_irrelevant (h : Repaired cfg) (hr : cfg.reader = true) (hbom : T.bom cfg = {}) (prev : St)
+    (chunks : List Bytes) :
     eraseCol (call T cfg prev chunks) = eraseCol (call T cfg prev [chunks.flatten]) := by
   have hrun : ∀ cs, call T cfg prev cs =
       match topUp (cs.filter (!·.isEmpty)) with
@@ -262,7 +267,8 @@ theorem chunks_irrelevant (h : Repaired cfg) (hr : cfg.reader = true) (prev : St
         | .strip r => afterBom T cfg (prev.entry cfg) (r :: rest)
         | .keep => afterBom T cfg (prev.entry cfg) (c :: rest) := by
     intro cs
-    unfold call afterBom
+    unfold call callWith afterBom
+    rw [hbom, topUpN_four, bomRuleReaderN_three]
     simp only [hr, ↓reduceIte]
     cases topUp (cs.filter (!·.isEmpty)) with
     | nil => rfl
@@ -305,6 +311,29 @@ theorem chunks_irrelevant (h : Repaired cfg) (hr : cfg.reader = true) (prev : St
         simp only
         rw [afterBom_eq T cfg h _ (r :: rest), afterBom_eq T cfg h _ [r ++ rest.flatten]]
         simp
+
+/-- **the length tests of the BOM handling in sen/parser.go and sen/tokenizer.go are the reference ones**:
+the loop "a BOM has to be seen whole" of `ParseReader` / `Load` runs while `cnt < 4`, the BOM tests are
+`3 < len(buf)` (REGENERATED by tools/extract/sen.go; the model's BOM rule is instantiated with them) -/
+theorem bom_bounds_in_source : senTables.bomP = {} ∧ senTables.bomT = {} :=
+  ⟨senTables_ok.bomP, senTables_ok.bomT⟩
+
+theorem senTables_bom (cfg : Cfg) : senTables.bom cfg = {} := by
+  unfold Tables.bom
+  rw [bom_bounds_in_source.1, bom_bounds_in_source.2]
+  split <;> rfl
+
+/-- chunk independence of the repaired machine over the regenerated tables and BOM length tests -/
+theorem chunks_irrelevant_sen (cfg : Cfg) (h : Repaired cfg) (hr : cfg.reader = true) (prev : St) (chunks : List Bytes) :
+    eraseCol (call senTables cfg prev chunks) = eraseCol (call senTables cfg prev [chunks.flatten]) :=
+  chunks_irrelevant senTables cfg h hr (senTables_bom cfg) prev chunks
+
+/-- with a read loop that stops at three bytes (`cnt < 3`, the detection still `3 < len(buf)`) a BOM that
+arrives as a first buffer of exactly three bytes is not recognised: the statement needs the bounds -/
+example : (match call { refTables with bomP := { readerLoop := 3 } } { reader := true } {} [[0xEF, 0xBB, 0xBF], [49]] with
+      | .ok o => o.docs.map JV.render | .error _ => ["error"]) ≠
+    (match call { refTables with bomP := { readerLoop := 3 } } { reader := true } {} [[0xEF, 0xBB, 0xBF, 49]] with
+      | .ok o => o.docs.map JV.render | .error _ => ["error"]) := by decide +kernel
 
 /-- non-vacuity: the repaired configuration of sen.ParseReader -/
 example : Repaired { reader := true, fastInt := false, tokSlow := false } := ⟨rfl, rfl, rfl⟩
